@@ -3,8 +3,8 @@
    (hypotheses of the theorems; sampled against scipy.stats.norm.ppf at run time). *)
 From Coq Require Import Reals QArith List.
 From Zepid Require Import Base.Wald Base.QSum Base.Rows Model.Estimators Model.Variance Proofs.VarianceProofs
-     GenProofs.GenProofs_calc.
-From ZepidGen Require Import Gen_calc_R.
+     GenProofs.GenProofs_calc GenProofs.GenProofs_ic.
+From ZepidGen Require Import Gen_calc_R Gen_ic_Q Gen_aipw_Q.
 Import ListNotations.
 
 Definition zq_ok (zq : R -> R) : Prop :=
@@ -110,6 +110,31 @@ Theorem C06_pool_mean_formula : forall pts vars, length pts = length vars -> pts
   snd (pool false pts vars) == meanq vars + meanq (map (fun p => (p - meanq pts) * (p - meanq pts)) pts).
 Proof. exact pool_mean_formula. Qed.
 
+(* the influence-curve expressions of the CURRENT source (translated on every run) are those of the variance model *)
+Theorem C06_src_tmle_ic_rd : forall psi r, ~ pa1 r == 0 -> ~ pa0 r == 0 ->
+  same (tmle_ic_rd_Q (obs r) (h1 r + h0 r) (qs r) (q0 r) (q1 r) (yval r) psi) (tmle_ic_rd psi r).
+Proof. exact gen_tmle_ic_rd. Qed.
+Theorem C06_src_tmle_ic_ate : forall psi r, ~ pa1 r == 0 -> ~ pa0 r == 0 ->
+  same (tmle_ic_ate_Q (obs r) (h1 r + h0 r) (qs r) (q0 r) (q1 r) (yval r) psi) (tmle_ic_rd psi r).
+Proof. exact gen_tmle_ic_ate. Qed.
+Theorem C06_src_tmle_ic_rr : forall mq1 mq0 r, ~ pa1 r == 0 -> ~ pa0 r == 0 -> ~ mq1 == 0 -> ~ mq0 == 0 ->
+  same (tmle_ic_rr_Q (obs r) (h0 r) (h1 r) (qs r) (q0 r) (q1 r) mq0 mq1 (yval r)) (tmle_ic_rr mq1 mq0 r).
+Proof. exact gen_tmle_ic_rr. Qed.
+Theorem C06_src_tmle_ic_or : forall mq1 mq0 r, ~ pa1 r == 0 -> ~ pa0 r == 0 ->
+  ~ mq1 == 0 -> ~ mq0 == 0 -> ~ 1 - mq1 == 0 -> ~ 1 - mq0 == 0 ->
+  same (tmle_ic_or_Q (obs r) (h0 r) (h1 r) (qs r) (q0 r) (q1 r) mq0 mq1 (yval r)) (tmle_ic_or mq1 mq0 r).
+Proof. exact gen_tmle_ic_or. Qed.
+Theorem C06_src_aipw_ic_rd : forall est r, obs r = true ->
+  same (aipw_ic_rd_Q est (aipw_y0 r) (aipw_y1 r)) (aipw_ic_rd est r).
+Proof. exact gen_aipw_ic_rd. Qed.
+Theorem C06_src_aipw_ic_rr : forall mq1 mq0 r, obs r = true -> ~ pa1 r == 0 -> ~ pa0 r == 0 -> ~ mq1 == 0 -> ~ mq0 == 0 ->
+  same (aipw_ic_rr_Q (trt r) mq1 mq0 (pa0 r) (pa1 r) (q1 r) (q0 r) (yval r)) (aipw_ic_rr mq1 mq0 r).
+Proof. exact gen_aipw_ic_rr. Qed.
+Theorem C06_src_aipw_pseudo : forall r, ~ pa1 r == 0 -> ~ pa0 r == 0 ->
+  (exists x, aipw_y1_Q (trt r) (pa1 r) (q1 r) (yval r) = [Some x] /\ x == aipw_y1 r) /\
+  (exists x, aipw_y0_Q (trt r) (pa0 r) (q0 r) (yval r) = [Some x] /\ x == aipw_y0 r).
+Proof. intros r H1 H0; split; [exact (gen_aipw_y1 r H1) | exact (gen_aipw_y0 r H0)]. Qed.
+
 Example C06_nonvacuous : fst (pool true [1#2; 1#4; 3#4] [1#100; 1#100; 4#100]) == 1 # 2 /\
   snd (pool true [1#2; 1#4; 3#4; 1] [1#100; 1#100; 4#100; 0]) == 157 # 1600 /\
   var_ddof1 [1; 2; 4] == 7 # 3 /\ ic_var [Some 1; None; Some 2; Some 4] 4 == 7 # 12.
@@ -139,3 +164,10 @@ Print Assumptions C06_stmle_var_nonneg.
 Print Assumptions C06_sandwich_nonneg.
 Print Assumptions C06_pool_var_nonneg.
 Print Assumptions C06_pool_mean_formula.
+Print Assumptions C06_src_tmle_ic_rd.
+Print Assumptions C06_src_tmle_ic_ate.
+Print Assumptions C06_src_tmle_ic_rr.
+Print Assumptions C06_src_tmle_ic_or.
+Print Assumptions C06_src_aipw_ic_rd.
+Print Assumptions C06_src_aipw_ic_rr.
+Print Assumptions C06_src_aipw_pseudo.
